@@ -131,7 +131,11 @@ Proof.
   { inv_some Hs. clear Hfifo. cbn; rewrite ?Ec. relgo told cc. }
   destruct popw. { brk. }
   destruct ptask; cbn in Hs.
-  2:{ inv_some Hs. clear Hfifo. cbn; rewrite ?Ec. relgo told cc. }
+  2:{ inv_some Hs. unfold recv_stopped; cbn. destruct queue as [|m q]; cbn.
+      - clear Hfifo. destruct flag; cbn; rewrite ?Ec; relgo told cc.
+      - assert (Hn : nth_error sent (length consumed) = Some m) by (rewrite <- Hfifo; apply nth_error_mid).
+        clear Hfifo Htrue Hqb Hparked Hpulls Hlost Hrecv Houtst.
+        destruct m; cbn; rewrite ?Ec; relgo told cc. }
   inv_some Hs.
   unfold recv_loop; cbn.
   destruct queue as [|m q]; cbn.
@@ -316,6 +320,8 @@ Proof.
   - rewrite Hp. cbn. exact Hp.
   - destruct f; cbn; [rewrite ph_finish_event|]; exact Hp.
 Qed.
+Lemma ph_recv_stopped s : pump (recv_stopped s) = pump s.
+Proof. unfold recv_stopped. destruct (queue s); rewrite ph_finish_event; reflexivity. Qed.
 Lemma ph_close_rest s : pump (close_rest s) = pump s.
 Proof. unfold close_rest. destruct (is_closed (set_ctl CIdle s)); reflexivity. Qed.
 Lemma ph_send_op n s : pump (send_op n s) = pump s.
@@ -331,7 +337,7 @@ Proof.
          | H : match ?x with _ => _ end = Some _ |- _ => destruct x eqn:?; try discriminate
          | H : (if ?x then _ else _) = Some _ |- _ => destruct x eqn:?; try discriminate
          end; injection Hs as <-; cbn;
-  rewrite ?ph_finish_event, ?ph_close_rest, ?ph_send_op; cbn; try assumption; try congruence;
+  rewrite ?ph_finish_event, ?ph_recv_stopped, ?ph_close_rest, ?ph_send_op; cbn; try assumption; try congruence;
   try (apply ph_recv_loop; assumption).
   all: try (destruct fin; assumption).
 Qed.
